@@ -516,6 +516,22 @@ func storageKillMonitor(s *chainsim.Step, v func(key, what string)) {
 	in := analyze(s, v)
 	w := s.W
 	pre, post := in.pre, in.post
+	// a dead storage provider receives no further rewards (any transition)
+	for id, p0 := range pre.Provs {
+		p1 := post.Provs[id]
+		if p0.SC != storageSC || p1 == nil || s.Err != nil {
+			continue
+		}
+		if (p0.Killed || p0.ShutDown || p0.SPKilled) && p1.rewards().Cmp(p0.rewards()) > 0 {
+			v("C23:storage:dead-provider-rewarded:"+in.cls, fmt.Sprintf("%s is dead (killed %v, shut down %v, stake pool dead %v) but its unpaid rewards grew %s -> %s", name(w, p0.ID), p0.Killed, p0.ShutDown, p0.SPKilled, p0.rewards(), p1.rewards()))
+		}
+		if !(p0.Killed || p0.ShutDown) && p1.rewards().Cmp(p0.rewards()) > 0 {
+			s.Tag("storage-live-provider-rewarded")
+		}
+		if (p0.Killed || p0.ShutDown) && in.fn == "storagesc.read_redeem" && in.ok {
+			s.Tag("storage-read-redeem-for-dead-provider")
+		}
+	}
 	var typ int
 	var kill bool
 	switch in.fn {
@@ -628,6 +644,9 @@ func storageKillMonitor(s *chainsim.Step, v func(key, what string)) {
 	if p1 == nil || (!p1.HasNode && !p1.HasPool) {
 		s.Tag("storage-" + op + "-removed-provider")
 		return // provider without stake and data is removed altogether
+	}
+	if len(p0.Pools) == 0 {
+		s.Tag("storage-" + op + "-with-zero-stake-records-kept")
 	}
 	if (kill && !p1.Killed) || (!kill && !p1.ShutDown) {
 		v("C23:"+site+":provider-not-marked", fmt.Sprintf("%s after %s: killed %v shut down %v", name(w, in.provID), op, p1.Killed, p1.ShutDown))
